@@ -199,7 +199,7 @@ def gen_concurrent_case(rng: random.Random, tier: str, backends=('dict',),
                   'sched_seed': None})
     steps.append({'actions': [{'sess': i, 'kind': 'noop'} for i in range(n)],
                   'sched_seed': None})
-    if any(st.get('faults') for st in steps) and rng.random() < 0.6:
+    if any(st.get('faults') for st in steps) and rng.random() < 0.85:
         # a death is most interesting while the victim waits for a lock
         for kind in ('lock_stall', 'lock_yield'):
             if kind not in cfg['buggify']:
